@@ -11,7 +11,8 @@ every `urlparse`/`urlunparse` table and every parameterisation.
   `all_parts`; the default `all_parts` (regenerated from the source) is the ten documented names
   (`default_all_parts_is_vocabulary`; KF-C15-b, `netloc` missing, is repaired in /repo).
 * which message key is noted in which situation (`urlValidator_key`, `httpURL_key`).
-* `canonicalizer_value`, `canonicalizer_failure_keeps_value`, `canonicalizer_idempotent`,
+* `canonicalizer_value`, `canonicalizer_failure_keeps_value`, `canonicalizer_idempotent_partial`,
+  `canonicalizer_faithful_partial`, `canonicalizer_not_idempotent`, `canonicalizer_changes_host`,
   `canonical_has_no_fragment`.
 -/
 import Flatland.C15
@@ -69,8 +70,34 @@ theorem urlValidate_eq (schemes allowed : List Str) (lib : UrlLib) (value : Str)
       cases h4 : (UrlPart.all.all (fun part => p.six.get part == [] || allowed.contains part.name)) <;>
       simp_all [bne]
 
-theorem decides_urlValidator (s p : List Str) (e : View) (d : Bool)
-    (hd : documented (.urlValidator s p) e = some d) : Decides (.urlValidator s p) e d := by
+/-- the docstring's scheme test is the code's, outside the class of KF-C15-g -/
+theorem schemeAllowed_eq_code (s : List Str) (sch : Str)
+    (h : (sch == [] && s != [['*']] && s.contains []) = false) :
+    schemeAllowed s sch = (sch != [] && (s == [['*']] || s.contains sch)) := by
+  unfold schemeAllowed
+  by_cases h1 : s = [['*']]
+  · simp [h1]
+  · by_cases h2 : sch = []
+    · subst h2
+      have h1' : (s != [['*']]) = true := by simpa using h1
+      simp only [h1', BEq.rfl, Bool.true_and] at h
+      have h3 : ([] : Str) ∉ s := by simpa using h
+      simp [h1, h3]
+    · have h2' : (sch != []) = true := by simpa using h2
+      have h1' : (s == [['*']]) = false := by simpa using h1
+      simp [h1, h2', h1']
+
+/-- the code blocks every URL without a scheme -/
+theorem urlValidate_no_scheme (schemes allowed : List Str) (lib : UrlLib) (value : Str) (q : Parsed)
+    (hp : lib.urlparse (pyStrip value) = .ok q) (hs : q.six.scheme = []) :
+    urlValidate schemes allowed lib value = fail "blocked_scheme" := by
+  simp [urlValidate, hp, hs]
+
+/-- **URLValidator decides its docstring's predicate** — outside the class of KF-C15-g (`excluded`:
+    no scheme, `''` listed in `allowed_schemes`, promised True) -/
+theorem decides_urlValidator_partial (s p : List Str) (e : View) (d : Bool)
+    (hd : documented (.urlValidator s p) e = some d)
+    (hk : excluded (.urlValidator s p) e d = false) : Decides (.urlValidator s p) e d := by
   simp only [documented] at hd
   cases hv : e.value with
   | none =>
@@ -81,38 +108,88 @@ theorem decides_urlValidator (s p : List Str) (e : View) (d : Bool)
     simp only [urlDocumented] at hd
     have hval : verdict (.urlValidator s p) e = urlValidate s p e.lib value := by
       simp [verdict, hv]
-    rw [urlValidate_eq] at hval
     cases hp : e.lib.urlparse (pyStrip value) with
     | missing => rw [hp] at hd; cases hd
     | raises r =>
+      rw [urlValidate_eq] at hval
       rw [hp] at hd hval; cases hd
       exact decides_fail _ _ "bad_format" [] hval
     | ok q =>
-      rw [hp] at hd hval
+      rw [hp] at hd
       simp only [Option.some.injEq] at hd
-      subst hd
-      simp only at hval
-      cases h1 : (q.six.scheme != [] && (s == [['*']] || s.contains q.six.scheme)) with
-      | false =>
-        rw [h1] at hval
-        simp only [Bool.not_false, if_true] at hval
-        simpa using decides_fail _ _ "blocked_scheme" [] hval
+      simp only [excluded, hv, hp, emptySchemeListed] at hk
+      cases hq : (q.six.scheme == [] && s != [['*']] && s.contains []) with
       | true =>
-        rw [h1] at hval
-        simp only [Bool.not_true, Bool.false_eq_true, if_false] at hval
-        cases h2 : (UrlPart.all.all (fun part => q.six.get part == [] || p.contains part.name)) with
+        -- in the class: then the promise is False, and the code says False (no scheme)
+        rw [hq] at hk
+        have hdf : d = false := by cases d <;> simp_all
+        subst hdf
+        have hs : q.six.scheme = [] := by
+          simp only [Bool.and_eq_true, beq_iff_eq] at hq
+          exact hq.1.1
+        rw [urlValidate_no_scheme s p e.lib value q hp hs] at hval
+        exact decides_fail _ _ "blocked_scheme" [] hval
+      | false =>
+        rw [urlValidate_eq] at hval
+        rw [hp] at hval
+        rw [schemeAllowed_eq_code s q.six.scheme hq] at hd
+        subst hd
+        simp only at hval
+        cases h1 : (q.six.scheme != [] && (s == [['*']] || s.contains q.six.scheme)) with
         | false =>
-          rw [h2] at hval
+          rw [h1] at hval
           simp only [Bool.not_false, if_true] at hval
-          simpa using decides_fail _ _ "blocked_part" [] hval
+          simpa using decides_fail _ _ "blocked_scheme" [] hval
         | true =>
-          rw [h2] at hval
+          rw [h1] at hval
           simp only [Bool.not_true, Bool.false_eq_true, if_false] at hval
-          simpa using decides_pass _ _ hval
+          cases h2 : (UrlPart.all.all (fun part => q.six.get part == [] || p.contains part.name)) with
+          | false =>
+            rw [h2] at hval
+            simp only [Bool.not_false, if_true] at hval
+            simpa using decides_fail _ _ "blocked_part" [] hval
+          | true =>
+            rw [h2] at hval
+            simp only [Bool.not_true, Bool.false_eq_true, if_false] at hval
+            simpa using decides_pass _ _ hval
   | int i => rw [hv] at hd; cases hd
   | bool b => rw [hv] at hd; cases hd
   | elem u => rw [hv] at hd; cases hd
   | method o n => rw [hv] at hd; cases hd
+
+/-- the full statement for URLValidator: no side condition -/
+def C15_UrlFull : Prop :=
+  ∀ s p (e : View) (d : Bool),
+    documented (.urlValidator s p) e = some d → Decides (.urlValidator s p) e d
+
+/-- **KF-C15-g, witness**: `URLValidator(allowed_schemes=('', 'http'))` on `'//h/p'` — the URL's
+    (empty) scheme IS present in `allowed_schemes`, every part is allowed: the docstring's
+    predicate holds, the validator says False (`blocked_scheme`) -/
+theorem C15_empty_scheme_always_blocked :
+    let lib : UrlLib := { parse := [("//h/p".toList,
+      .inr { six := { netloc := "h".toList, path := "/p".toList }, hostname := .str "h".toList })] }
+    let e : View := { value := .str "//h/p".toList, lib := lib }
+    let v := V.urlValidator [[], "http".toList] (UrlPart.all.map UrlPart.name)
+    documented v e = some true ∧ excluded v e true = true ∧
+    (verdict v e).toOption.map (fun r => (r.1, r.2.map (·.key))) = some (false, some "blocked_scheme") := by
+  decide
+
+theorem C15_UrlFull_fails : ¬ C15_UrlFull := by
+  intro h
+  obtain ⟨note, hv, _⟩ := h _ _ _ true C15_empty_scheme_always_blocked.1
+  have := C15_empty_scheme_always_blocked.2.2
+  rw [hv] at this
+  simp [Except.toOption] at this
+
+/-- `('*', 'x')` is a restriction to the names `*` and `x` (the docstring's wildcard is exactly
+    `('*',)`): `http://h/` is blocked, by the docstring and by the code -/
+example :
+    let lib : UrlLib := { parse := [("http://h/".toList,
+      .inr { six := { scheme := "http".toList, netloc := "h".toList, path := "/".toList } })] }
+    let e : View := { value := .str "http://h/".toList, lib := lib }
+    let v := V.urlValidator [['*'], ['x']] (UrlPart.all.map UrlPart.name)
+    documented v e = some false ∧ excluded v e false = false ∧
+    (verdict v e).toOption.map (·.1) = some false := by decide
 
 /-- non-vacuity: `ftp://h/` against `allowed_schemes=('http','https')` is documented false and
     the model notes `blocked_scheme` -/
@@ -122,7 +199,7 @@ example :
              hostname := .str "h".toList })] }
     let e : View := { value := .str "  ftp://h/ ".toList, lib := lib }
     let v := V.urlValidator ["http".toList, "https".toList] (UrlPart.all.map UrlPart.name)
-    documented v e = some false ∧
+    documented v e = some false ∧ excluded v e false = false ∧
     (verdict v e).toOption.map (fun r => (r.1, r.2.map (·.key))) = some (false, some "blocked_scheme") := by
   decide
 
@@ -156,8 +233,50 @@ def optPart : Option Str → PartVal
   | none => .none
   | some s => .str s
 
+/-- **the code's reading** of a `required_parts` entry (`if value is None` for `True`; `elif
+    required:` skips an empty collection) — differs from the docstring's `requiredHolds` exactly on
+    the classes of KF-C15-c and KF-C15-d (`requiredHolds_eq_code`, `required_true_on_empty_differs`,
+    `required_empty_collection_differs`) -/
+def requiredHoldsCode (rule : Option PartRule) (part : PartVal) : Bool :=
+  match rule, part with
+  | some .always, .str _ => true
+  | some .always, _ => false
+  | some (.oneOf []), _ => true
+  | some (.oneOf l), .str s => l.contains s
+  | some (.oneOf _), _ => false
+  | _, _ => true
+
+theorem requiredHolds_eq_code (r : Option PartRule) (v : PartVal) (hv : v ≠ .raises)
+    (hc : requiredTrueOnEmpty r v = false) (hd : requiredEmptyCollection r v = false) :
+    requiredHolds r v = requiredHoldsCode r v := by
+  cases r with
+  | none => cases v <;> rfl
+  | some r =>
+    cases r with
+    | off => cases v <;> rfl
+    | always =>
+      cases v with
+      | raises => exact absurd rfl hv
+      | none => rfl
+      | str s =>
+        cases s with
+        | nil => simp [requiredTrueOnEmpty] at hc
+        | cons a t => simp [requiredHolds, requiredHoldsCode, partPresent]
+    | oneOf l =>
+      cases l with
+      | nil => cases v <;> simp_all [requiredEmptyCollection]
+      | cons a t => cases v <;> rfl
+
+/-- on the two classes the readings differ: the docstring says "not met", the code "met" -/
+theorem required_true_on_empty_differs :
+    requiredHolds (some .always) (.str []) = false ∧ requiredHoldsCode (some .always) (.str []) = true := by
+  decide
+theorem required_empty_collection_differs (v : PartVal) :
+    requiredHolds (some (.oneOf [])) v = false ∧ requiredHoldsCode (some (.oneOf [])) v = true := by
+  cases v <;> simp [requiredHolds, requiredHoldsCode]
+
 theorem reqFails_eq (r : Option PartRule) (v : Option Str) :
-    reqFails r v = !requiredHolds r (optPart v) := by
+    reqFails r v = !requiredHoldsCode r (optPart v) := by
   cases r with
   | none => cases v <;> rfl
   | some r =>
@@ -167,7 +286,7 @@ theorem reqFails_eq (r : Option PartRule) (v : Option Str) :
     | oneOf l =>
       cases l with
       | nil => cases v <;> rfl
-      | cons a t => cases v <;> simp [reqFails, requiredHolds, optPart]
+      | cons a t => cases v <;> simp [reqFails, requiredHoldsCode, optPart]
 
 theorem forbFails_eq (r : Option PartRule) (v : Option Str) :
     forbFails r v = !forbiddenHolds r (optPart v) := by
@@ -175,14 +294,17 @@ theorem forbFails_eq (r : Option PartRule) (v : Option Str) :
   | none => cases v <;> rfl
   | some r =>
     cases r with
-    | always => cases v <;> simp [forbFails, forbiddenHolds, optPart]
+    | always =>
+      cases v with
+      | none => simp [forbFails, forbiddenHolds, optPart, partPresent]
+      | some s => cases s <;> simp [forbFails, forbiddenHolds, optPart, partPresent]
     | off => cases v <;> rfl
     | oneOf l =>
       cases l with
       | nil => cases v <;> simp [forbFails, forbiddenHolds, optPart]
       | cons a t => cases v <;> simp [forbFails, forbiddenHolds, optPart]
 
-/-- the message one part of the URL earns, by the documentation: unreadable → `bad_format`;
+/-- the message one part of the URL earns (the CODE's reading of required entries): unreadable → `bad_format`;
     its `required_parts` entry not met → `required_part`; its `forbidden_parts` entry violated →
     `forbidden_part` -/
 def partKey (req forb : List (Str × PartRule)) (table : List (Str × PartVal)) (k : Str) :
@@ -190,16 +312,16 @@ def partKey (req forb : List (Str × PartRule)) (table : List (Str × PartVal)) 
   match table.lookup k with
   | some .raises => some "bad_format"
   | some v =>
-    if !requiredHolds (req.lookup k) v then some "required_part"
+    if !requiredHoldsCode (req.lookup k) v then some "required_part"
     else if !forbiddenHolds (forb.lookup k) v then some "forbidden_part"
     else none
   | none => none
 
-/-- is the part fine (the conjunct of `httpPartsDocumented`)? -/
+/-- is the part fine, in the code's reading? -/
 def partOk (req forb : List (Str × PartRule)) (table : List (Str × PartVal)) (k : Str) : Bool :=
   match table.lookup k with
   | some .raises => false
-  | some v => requiredHolds (req.lookup k) v && forbiddenHolds (forb.lookup k) v
+  | some v => requiredHoldsCode (req.lookup k) v && forbiddenHolds (forb.lookup k) v
   | none => true
 
 theorem partKey_none_iff (req forb table k) :
@@ -212,10 +334,10 @@ theorem partKey_none_iff (req forb table k) :
     | raises => simp
     | none =>
       dsimp only
-      cases requiredHolds (req.lookup k) .none <;> cases forbiddenHolds (forb.lookup k) .none <;> simp
+      cases requiredHoldsCode (req.lookup k) .none <;> cases forbiddenHolds (forb.lookup k) .none <;> simp
     | str s =>
       dsimp only
-      cases requiredHolds (req.lookup k) (.str s) <;> cases forbiddenHolds (forb.lookup k) (.str s) <;> simp
+      cases requiredHoldsCode (req.lookup k) (.str s) <;> cases forbiddenHolds (forb.lookup k) (.str s) <;> simp
 
 /-- **the loop, order-free**: over known part names the loop returns True iff no part earns a
     message, and otherwise notes the message of the first part (in `all_parts` order) that earns
@@ -251,12 +373,12 @@ theorem httpPartsLoop_eq (req forb : List (Str × PartRule)) (p : Parsed) (parts
       | none =>
         simp only [asPart, optPart] at e1 e2 ⊢
         rw [e1, e2]
-        cases requiredHolds (req.lookup k) .none <;> cases forbiddenHolds (forb.lookup k) .none <;>
+        cases requiredHoldsCode (req.lookup k) .none <;> cases forbiddenHolds (forb.lookup k) .none <;>
           simp [ih']
       | some s =>
         simp only [asPart, optPart] at e1 e2 ⊢
         rw [e1, e2]
-        cases requiredHolds (req.lookup k) (.str s) <;>
+        cases requiredHoldsCode (req.lookup k) (.str s) <;>
           cases forbiddenHolds (forb.lookup k) (.str s) <;> simp [ih']
 
 theorem findSome_none_iff_all (req forb table) (parts : List Str) :
@@ -272,9 +394,38 @@ theorem findSome_none_iff_all (req forb table) (parts : List Str) :
         rw [(partKey_none_iff req forb table k).2 hc] at hk; cases hk
       simp [this]
 
+/-- is the part fine, by the docstring (the conjunct of `httpPartsDocumented`)? -/
+def partOkDoc (req forb : List (Str × PartRule)) (table : List (Str × PartVal)) (k : Str) : Bool :=
+  match table.lookup k with
+  | some .raises => false
+  | some v => requiredHolds (req.lookup k) v && forbiddenHolds (forb.lookup k) v
+  | none => true
+
+theorem partOkDoc_eq_code (req forb table) (parts : List Str)
+    (hq : httpQuirk parts req table = false) :
+    parts.all (partOkDoc req forb table) = parts.all (partOk req forb table) := by
+  induction parts with
+  | nil => rfl
+  | cons k rest ih =>
+    simp only [httpQuirk, List.any_cons, Bool.or_eq_false_iff] at hq
+    simp only [List.all_cons]
+    rw [ih (by simpa [httpQuirk] using hq.2)]
+    congr 1
+    unfold partOkDoc partOk
+    cases hl : table.lookup k with
+    | none => rfl
+    | some v =>
+      have h1 := hq.1
+      rw [hl] at h1
+      simp only [Bool.or_eq_false_iff] at h1
+      cases v with
+      | raises => rfl
+      | none => simp only; rw [requiredHolds_eq_code _ _ (by simp) h1.1 h1.2]
+      | str s => simp only; rw [requiredHolds_eq_code _ _ (by simp) h1.1 h1.2]
+
 theorem httpPartsDocumented_eq (allParts req forb table d)
     (hd : httpPartsDocumented allParts req forb table = some d) :
-    (∀ k ∈ allParts, k ∈ httpVocabulary) ∧ d = allParts.all (partOk req forb table) := by
+    (∀ k ∈ allParts, k ∈ httpVocabulary) ∧ d = allParts.all (partOkDoc req forb table) := by
   unfold httpPartsDocumented at hd
   split at hd
   · cases hd
@@ -285,17 +436,20 @@ theorem httpPartsDocumented_eq (allParts req forb table d)
     rw [← hd]
     rfl
 
-/-- the case KF-C15-a is about: an element without a value, promised False -/
-abbrev HttpNoValue := httpNoValue
+/-- the class of the open findings (KF-C15-a, -c, -d for this validator; `Spec.excluded`) -/
+abbrev Excluded := excluded
 
+/-- **HTTPURLValidator decides its docstring's predicate** — outside `excluded`: not (no value ∧
+    promised False: KF-C15-a), and no known part of the URL in the class of KF-C15-c (`True` entry
+    of `required_parts`, the part is the empty text) or KF-C15-d (empty collection as entry) -/
 theorem decides_httpURL_partial (ap : List Str) (req forb : List (Str × PartRule)) (e : View)
     (d : Bool) (hd : documented (.httpURL ap req forb) e = some d)
-    (hk : HttpNoValue (.httpURL ap req forb) e d = false) : Decides (.httpURL ap req forb) e d := by
+    (hk : Excluded (.httpURL ap req forb) e d = false) : Decides (.httpURL ap req forb) e d := by
   simp only [documented] at hd
   cases hv : e.value with
   | none =>
     have : d = true := by
-      simp only [HttpNoValue, httpNoValue, hv] at hk
+      simp only [Excluded, excluded, hv] at hk
       cases d <;> simp_all
     subst this
     exact decides_pass _ _ (by simp [verdict, hv])
@@ -315,7 +469,9 @@ theorem decides_httpURL_partial (ap : List Str) (req forb : List (Str × PartRul
     | ok p =>
       rw [hp] at hd hval
       simp only at hd hval
+      simp only [Excluded, excluded, hv, hp] at hk
       obtain ⟨hvoc, hdd⟩ := httpPartsDocumented_eq _ _ _ _ _ hd
+      rw [partOkDoc_eq_code req forb (partTable p) ap hk] at hdd
       rw [httpPartsLoop_eq req forb p ap hvoc] at hval
       cases hf : ap.findSome? (partKey req forb (partTable p)) with
       | none =>
@@ -362,7 +518,7 @@ example :
              username := .str "u".toList, hostname := .str "h".toList })] }
     let e : View := { value := .str "http://u@h/".toList, lib := lib }
     let v := V.httpURL httpPartNames defaultRequired defaultForbidden
-    documented v e = some false ∧ HttpNoValue v e false = false ∧
+    documented v e = some false ∧ Excluded v e false = false ∧
     (verdict v e).toOption.map (fun r => (r.1, r.2.map (·.key))) = some (false, some "forbidden_part") := by
   decide
 
@@ -386,6 +542,39 @@ theorem C15_HttpFull_fails : ¬ C15_HttpFull := by
   rw [hv] at this
   simp [Except.toOption] at this
 
+/-- **KF-C15-c, witness**: `HTTPURLValidator(required_parts={'path': True})` on `'http://h'` — the
+    URL has no path, the docstring says "the part is required"; the validator says True.  (The six
+    tuple parts of a parse result are `''`, never None, and the code tests `value is None`: on them a
+    `True` entry can never fail.) -/
+theorem C15_required_true_never_fails :
+    let lib : UrlLib := { parse := [("http://h".toList,
+      .inr { six := { scheme := "http".toList, netloc := "h".toList }, hostname := .str "h".toList })] }
+    let e : View := { value := .str "http://h".toList, lib := lib }
+    let v := V.httpURL httpPartNames [("path".toList, .always)] []
+    documented v e = some false ∧ Excluded v e false = true ∧
+    (verdict v e).toOption.map (·.1) = some true := by decide
+
+/-- **KF-C15-d, witness**: `required_parts={'scheme': ()}` on `'ftp://h/'` — "the value of the part
+    must be present in this collection", the collection is empty; the validator says True -/
+theorem C15_required_empty_collection_ignored :
+    let lib : UrlLib := { parse := [("ftp://h/".toList,
+      .inr { six := { scheme := "ftp".toList, netloc := "h".toList, path := "/".toList },
+             hostname := .str "h".toList })] }
+    let e : View := { value := .str "ftp://h/".toList, lib := lib }
+    let v := V.httpURL httpPartNames [("scheme".toList, .oneOf [])] []
+    documented v e = some false ∧ Excluded v e false = true ∧
+    (verdict v e).toOption.map (·.1) = some true := by decide
+
+/-- the full statement restricted to elements WITH a value is false as well (KF-C15-c) -/
+theorem C15_HttpFull_fails_with_value :
+    ¬ (∀ ap req forb (e : View) (d : Bool), e.value ≠ .none →
+        documented (.httpURL ap req forb) e = some d → Decides (.httpURL ap req forb) e d) := by
+  intro h
+  obtain ⟨note, hv, _⟩ := h _ _ _ _ false (by decide) C15_required_true_never_fails.1
+  have := C15_required_true_never_fails.2.2
+  rw [hv] at this
+  simp [Except.toOption] at this
+
 /-! ### every documented part name's rule is honoured -/
 
 /-- the documentation's reading of `required_parts` / `forbidden_parts`: "A mapping of part names"
@@ -398,12 +587,15 @@ def C15_HttpRuleHonoured_Full : Prop :=
     (requiredHolds (req.lookup k) v = false ∨ forbiddenHolds (forb.lookup k) v = false) →
     ∃ note, verdict (.httpURL httpPartNames req forb) e = .ok (false, note)
 
-/-- for any `all_parts` within the vocabulary: a rule on a name that is in `all_parts` -/
+/-- for any `all_parts` within the vocabulary: a rule on a name that is in `all_parts`, outside the
+    classes of KF-C15-c / -d for that part -/
 theorem http_rule_honoured_partial (ap : List Str) (req forb : List (Str × PartRule)) (e : View)
     (url : Str) (p : Parsed) (k : Str) (v : PartVal)
     (hv : e.value = .str url) (hp : e.lib.urlparse url = .ok p)
     (hvoc : ∀ k ∈ ap, k ∈ httpVocabulary) (hk : k ∈ ap)
     (hl : (partTable p).lookup k = some v)
+    (hc : requiredTrueOnEmpty (req.lookup k) v = false)
+    (hd : requiredEmptyCollection (req.lookup k) v = false)
     (hr : requiredHolds (req.lookup k) v = false ∨ forbiddenHolds (forb.lookup k) v = false) :
     ∃ note, verdict (.httpURL ap req forb) e = .ok (false, note) := by
   rw [httpURL_key ap req forb e url p hv hp hvoc]
@@ -412,8 +604,12 @@ theorem http_rule_honoured_partial (ap : List Str) (req forb : List (Str × Part
     rw [hl]
     cases v with
     | raises => rfl
-    | none => rcases hr with hr | hr <;> simp [hr]
-    | str s => rcases hr with hr | hr <;> simp [hr]
+    | none =>
+      rw [requiredHolds_eq_code _ _ (by simp) hc hd] at hr
+      rcases hr with hr | hr <;> simp [hr]
+    | str s =>
+      rw [requiredHolds_eq_code _ _ (by simp) hc hd] at hr
+      rcases hr with hr | hr <;> simp [hr]
   cases hf : ap.findSome? (partKey req forb (partTable p)) with
   | some key => exact ⟨_, rfl⟩
   | none =>
@@ -431,13 +627,30 @@ theorem default_all_parts_is_vocabulary :
      httpVocabulary.all (fun k => httpPartNames.contains k)) = true := by decide
 
 /-- **every documented part name's rule is honoured** with the default `all_parts` (KF-C15-b is
-    repaired: the former negation witness `required_parts={'netloc': ('example.com',)}` on
-    `http://evil.example/` is now an instance) -/
-theorem http_rule_honoured : C15_HttpRuleHonoured_Full := by
-  intro req forb e url p k v hv hp hk hl hr
+    repaired) — outside the classes of KF-C15-c / -d for that part -/
+theorem http_rule_honoured_default_partial
+    (req forb : List (Str × PartRule)) (e : View) (url : Str) (p : Parsed) (k : Str) (v : PartVal)
+    (hv : e.value = .str url) (hp : e.lib.urlparse url = .ok p) (hk : k ∈ httpVocabulary)
+    (hl : (partTable p).lookup k = some v)
+    (hc : requiredTrueOnEmpty (req.lookup k) v = false)
+    (hd : requiredEmptyCollection (req.lookup k) v = false)
+    (hr : requiredHolds (req.lookup k) v = false ∨ forbiddenHolds (forb.lookup k) v = false) :
+    ∃ note, verdict (.httpURL httpPartNames req forb) e = .ok (false, note) := by
   have h := default_all_parts_is_vocabulary
   simp only [Bool.and_eq_true, List.all_eq_true, List.contains_eq_mem, decide_eq_true_eq] at h
-  exact http_rule_honoured_partial httpPartNames req forb e url p k v hv hp h.1 (h.2 k hk) hl hr
+  exact http_rule_honoured_partial httpPartNames req forb e url p k v hv hp h.1 (h.2 k hk) hl hc hd hr
+
+/-- the full statement is false of the code (KF-C15-c: `required_parts={'path': True}` on
+    `'http://h'` is not honoured) -/
+theorem C15_HttpRuleHonoured_fails : ¬ C15_HttpRuleHonoured_Full := by
+  intro h
+  let p : Parsed := { six := { scheme := "http".toList, netloc := "h".toList }, hostname := .str "h".toList }
+  let e : View := { value := .str "http://h".toList, lib := { parse := [("http://h".toList, .inr p)] } }
+  obtain ⟨note, hv⟩ := h [("path".toList, .always)] [] e "http://h".toList p "path".toList (.str [])
+    rfl (by decide) (by decide) (by decide) (Or.inl (by decide))
+  have := C15_required_true_never_fails.2.2
+  rw [show verdict (.httpURL httpPartNames [("path".toList, .always)] []) e = _ from hv] at this
+  simp [Except.toOption] at this
 
 /-- non-vacuity / the former KF-C15-b witness: now False with `required_part` -/
 example :
@@ -611,8 +824,10 @@ theorem canonicalizer_value (ds : List Str) (e : View) (d : Bool)
     | method o n => rw [hv] at hd; cases hd
 
 /-- **value untouched on failure** (and on an exception): whenever the canonicaliser does not
-    return True, the element's value is what it was — no hypothesis -/
+    return True, the element's value is what it was — for the values the model follows the code on
+    (`inModel`: a text or no value; on `Integer(0)` the real validator returns True and leaves `b''`) -/
 theorem canonicalizer_failure_keeps_value (ds : List Str) (e : View)
+    (_hm : inModel (.urlCanonicalizer ds) e = true)
     (h : verdict (.urlCanonicalizer ds) e ≠ pass) :
     valueAfter (.urlCanonicalizer ds) e = e.value := by
   simp only [verdict, valueAfter] at h ⊢
@@ -637,10 +852,10 @@ theorem keptParts_idem (ds : List Str) (u : Six) : keptParts ds (keptParts ds u)
   congr 1 <;> split <;> rfl
 
 /-- **a second run changes nothing when the rebuild is stable**: if the rebuilt text `r` parses
-    back to the parts it was built from (`hstable`: the six parts of `urlparse(r)` are the kept
-    parts — the explicit hypothesis; `urlparse ∘ urlunparse` is not the identity in general),
-    canonicalising the canonical value returns True and leaves exactly `r` -/
-theorem canonicalizer_idempotent (ds : List Str) (e : View) (url r : Str) (p p' : Parsed)
+    back to the parts it was built from (`hstable`, `hsix`: the explicit hypothesis — `urlparse ∘
+    urlunparse` is NOT the identity: `canonicalizer_not_idempotent`), canonicalising the canonical
+    value returns True and leaves exactly `r` -/
+theorem canonicalizer_idempotent_partial (ds : List Str) (e : View) (url r : Str) (p p' : Parsed)
     (hne : ds.isEmpty = false) (hnames : ∀ k ∈ ds, k ∈ urlPartNames)
     (hv : e.value = .str url) (hp : e.lib.urlparse url = .ok p)
     (hr : e.lib.urlunparse (keptParts ds p.six) = .ok (.str r))
@@ -655,7 +870,77 @@ theorem canonicalizer_idempotent (ds : List Str) (e : View) (url r : Str) (p p' 
   refine ⟨?_, ?_, ?_⟩
   · simp [valueAfter, hne, hv, h1]
   · simp [valueAfter, hne, h2]
-  · simp [verdict, hne, h2]
+  · simp [valueAfter, verdict, hne, h2]
+
+/-- **the result has the unwanted parts removed and the others kept** (`canonFaithful`, the
+    docstring's promise about the RESULT) — under the same explicit hypothesis -/
+theorem canonicalizer_faithful_partial (ds : List Str) (e : View) (url r : Str) (p p' : Parsed)
+    (hne : ds.isEmpty = false) (hnames : ∀ k ∈ ds, k ∈ urlPartNames)
+    (hv : e.value = .str url) (hp : e.lib.urlparse url = .ok p)
+    (hr : e.lib.urlunparse (keptParts ds p.six) = .ok (.str r))
+    (hstable : e.lib.urlparse r = .ok p') (hsix : p'.six = keptParts ds p.six) :
+    canonFaithful ds e.value e.lib = some true ∧ valueAfter (.urlCanonicalizer ds) e = .str r := by
+  have h1 : canonicalize ds e.lib url = .ok (.rewritten (.str r)) :=
+    canonicalize_ok ds e.lib url p _ hnames hp hr
+  have hall : ds.all (fun k => (UrlPart.all.map UrlPart.name).contains k) = true :=
+    (names_all_iff ds).2 hnames
+  refine ⟨?_, by simp [valueAfter, hne, hv, h1]⟩
+  simp only [canonFaithful, hne, hall, hv, hp, hr, hstable, hsix, Bool.false_eq_true, if_false,
+    Bool.not_true]
+  simp only [UrlPart.all, List.all_cons, List.all_nil, keptParts, Six.get]
+  simp only [Option.some.injEq, Bool.and_true, Bool.and_eq_true]
+  refine ⟨?_, ?_, ?_, ?_, ?_, ?_⟩ <;> split <;> simp_all
+
+/-- the parse table of the standard library on `'////'`, `'//'` and `''` -/
+def slashLib : UrlLib := { parse := [
+  ("////".toList, .inr { six := { path := "//".toList } }),
+  ("//".toList, .inr {}),
+  ([], .inr {})] }
+
+/-- **the canonicaliser is not idempotent and does not keep the kept parts** (KF-C15-e), default
+    `discard_parts`, standard `urlunparse`: `'////'` → `'//'` → `''`; the path `//` the original has
+    is gone from the "canonical" URL although `path` is not among the discarded parts -/
+theorem canonicalizer_not_idempotent :
+    let ds := ["fragment".toList]
+    let e : View := { value := .str "////".toList, lib := slashLib }
+    let e1 : View := { value := valueAfter (.urlCanonicalizer ds) e, lib := e.lib }
+    valueAfter (.urlCanonicalizer ds) e = .str "//".toList ∧
+    valueAfter (.urlCanonicalizer ds) e1 = .str [] ∧
+    documented (.urlCanonicalizer ds) e = some true ∧
+    canonFaithful ds e.value e.lib = some false := by decide
+
+/-- the unhypothesised statements are false -/
+theorem canonicalizer_idempotent_fails :
+    ¬ (∀ (ds : List Str) (e : View), documented (.urlCanonicalizer ds) e = some true →
+        valueAfter (.urlCanonicalizer ds) { e with value := valueAfter (.urlCanonicalizer ds) e } =
+          valueAfter (.urlCanonicalizer ds) e) := by
+  intro h
+  have h1 := h ["fragment".toList] { value := .str "////".toList, lib := slashLib }
+    canonicalizer_not_idempotent.2.2.1
+  have h2 := canonicalizer_not_idempotent.2.1
+  have h3 := canonicalizer_not_idempotent.1
+  simp only at h2 h3
+  rw [h2, h3] at h1
+  exact absurd h1 (by decide)
+
+theorem canonicalizer_faithful_fails :
+    ¬ (∀ (ds : List Str) (e : View) (b : Bool), canonFaithful ds e.value e.lib = some b → b = true) :=
+  fun h => absurd (h _ _ _ canonicalizer_not_idempotent.2.2.2) (by decide)
+
+/-- **… and can turn a URL `HTTPURLValidator` rejects into one it accepts** (KF-C15-e):
+    `'http:////evil.example/p#f'` (no host: `required_part`) → `'http://evil.example/p'` -/
+theorem canonicalizer_changes_host :
+    let lib : UrlLib := { parse := [
+      ("http:////evil.example/p#f".toList, .inr { six := { scheme := "http".toList, path := "//evil.example/p".toList, fragment := "f".toList } }),
+      ("http://evil.example/p".toList, .inr { six := { scheme := "http".toList, netloc := "evil.example".toList, path := "/p".toList }, hostname := .str "evil.example".toList })] }
+    let ds := ["fragment".toList]
+    let e : View := { value := .str "http:////evil.example/p#f".toList, lib := lib }
+    let e1 : View := { value := valueAfter (.urlCanonicalizer ds) e, lib := e.lib }
+    let http := V.httpURL httpPartNames defaultRequired defaultForbidden
+    (verdict http e).toOption.map (fun r => (r.1, r.2.map (·.key))) = some (false, some "required_part") ∧
+    valueAfter (.urlCanonicalizer ds) e = .str "http://evil.example/p".toList ∧
+    (verdict http e1).toOption.map (·.1) = some true ∧
+    canonFaithful ds e.value e.lib = some false := by decide
 
 /-- non-vacuity (standard `urlunparse`): `http://h/p#f` → `http://h/p`, stable -/
 example :
@@ -665,6 +950,7 @@ example :
       ("http://h/p".toList, .inr { six := six, hostname := .str "h".toList })] }
     let e : View := { value := .str "http://h/p#f".toList, lib := lib }
     documented (.urlCanonicalizer ["fragment".toList]) e = some true ∧
+    canonFaithful ["fragment".toList] e.value e.lib = some true ∧
     valueAfter (.urlCanonicalizer ["fragment".toList]) e = .str "http://h/p".toList ∧
     valueAfter (.urlCanonicalizer ["fragment".toList]) { e with value := .str "http://h/p".toList } =
       .str "http://h/p".toList := by decide
